@@ -31,9 +31,10 @@ THEOREMS = [
     'Pyiga.Props.C06.phys_to_para_partial', 'Pyiga.Props.C06.phys_to_para_first_order', 'Pyiga.Props.C06.phys_to_para_second_order',
     'Pyiga.Props.C06.geo_hess_trf_value', 'Pyiga.Props.C06.phys_to_para_spacetime', 'Pyiga.Props.C06.spacetime_time_derivs',
     'Pyiga.Props.C06.input_derivs_sound', 'Pyiga.Props.C06.sym_index_packing', 'Pyiga.Props.C06.measures_sound',
-    'Pyiga.Props.C06.jacinv_right_inverse', 'Pyiga.Props.C06.dx_expansion_sound', 'Pyiga.Props.C06.phys_to_para_sound', 'Pyiga.Props.C06.chain_rule_first_order', 'Pyiga.Props.C06.chain_rule_second_order',
+    'Pyiga.Props.C06.jacinv_right_inverse', 'Pyiga.Props.C06.dx_expansion_sound', 'Pyiga.Props.C06.phys_to_para_sound', 'Pyiga.Props.C06.jacinv_right_inverse_dim3',
+    'Pyiga.Props.C06.chain_rule_env_of_defs', 'Pyiga.Props.C06.phys_to_para_sound_spacetime', 'Pyiga.Props.C06.chain_rule_first_order', 'Pyiga.Props.C06.chain_rule_second_order',
 ]
-MODULES = ['Pyiga.Model.VForm', 'Pyiga.Model.SLP', 'Pyiga.Proofs.VForm', 'Pyiga.Proofs.VFormAlg', 'Pyiga.Proofs.VFormKey', 'Pyiga.Proofs.VFormPhys', 'Pyiga.Proofs.VFormPhys2', 'Pyiga.Proofs.VFormPhys3', 'Pyiga.Model.VFormPhys', 'Pyiga.Proofs.SLP', 'Pyiga.Props.C06']
+MODULES = ['Pyiga.Model.VForm', 'Pyiga.Model.SLP', 'Pyiga.Proofs.VForm', 'Pyiga.Proofs.VFormAlg', 'Pyiga.Proofs.VFormKey', 'Pyiga.Proofs.VFormPhys', 'Pyiga.Proofs.VFormPhys2', 'Pyiga.Proofs.VFormPhys3', 'Pyiga.Proofs.VFormPhys4', 'Pyiga.Proofs.VFormPhys5', 'Pyiga.Model.VFormPhys', 'Pyiga.Proofs.SLP', 'Pyiga.Props.C06']
 
 
 # ----------------------------------------------------------------------------- helpers
@@ -419,17 +420,18 @@ def form_case(args):
                 else:
                     out['oracle'] = ('value-changed', 'value differs (relative < 1e-10) although fold_constants combines no two constants', src0)
         staged_finalize(vfB, snap)
-        if not vfB.spacetime and 's1' in snaps and 's3' in snaps:
+        if 's1' in snaps and 's3' in snaps:
             # the whole replace_physical_derivs pass (both transform calls) on every tree
             physin = plist(v.name for v in vfB.vars.values() if v.expr is None and isinstance(v.src, V.InputField) and v.src.physical)
+            rop = 'rphysST' if vfB.spacetime else 'rphys'
             va, ea = snaps['s1']; vb, eb = snaps['s3']
             da, db = dict(va), dict(vb)
             for name in da:
                 if name in db and len(da[name]) < 60000:
-                    add('rphys %d %s %s' % (vfB.dim, physin, da[name]), db[name], ('rphys', seed, name))
+                    add('%s %d %s %s' % (rop, vfB.dim, physin, da[name]), db[name], ('rphys', seed, name))
             for i, (x, y) in enumerate(zip(ea, eb)):
                 if len(x) < 60000:
-                    add('rphys %d %s %s' % (vfB.dim, physin, x), y, ('rphys', seed, 'expr%d' % i))
+                    add('%s %d %s %s' % (rop, vfB.dim, physin, x), y, ('rphys', seed, 'expr%d' % i))
         for (a, b, op) in (('s5', 's6', 'lit'), ('s6', 's7', 'fold')):
             va, ea = snaps[a]; vb, eb = snaps[b]
             da, db = dict(va), dict(vb)
